@@ -403,6 +403,10 @@ func runC02(c *eng.Ctx) {
 	c.Rule("R02.4", "K1")
 	ruleOffsetRequestFenced(c)
 
+	// ---- known finding K14: log reconciliation (Truncate) against the background cleaner
+	c.Rule("R08.8", "K4")
+	ruleCleaningPassExcludesListRewrites(c)
+
 }
 
 // ruleLeaderServesOwnEpoch (part of R02.4, shared with C04): a fetch request counts as progress of a replica only when it was
